@@ -1592,7 +1592,16 @@ impl StorageEngine {
                             result.truncate(n);
                             result
                         } else {
-                            let n = (-count) as usize;
+                            // |count| picks with repetition. The reply is built in memory, so an
+                            // absurd count (down to i64::MIN, whose negation overflows) is refused
+                            // instead of exhausting memory or panicking
+                            const MAX_PICKS: u64 = 10_000_000;
+                            if count.unsigned_abs() > MAX_PICKS {
+                                return Err(FerrousError::Command(CommandError::Generic(
+                                    "value is out of range".to_string()
+                                )));
+                            }
+                            let n = count.unsigned_abs() as usize;
                             let mut result = Vec::with_capacity(n);
                             for _ in 0..n {
                                 if let Some(member) = members.choose(&mut rng) {
